@@ -28,18 +28,18 @@ CHECKS = {
         note="Sampled (6k quick / 200k thorough cases); the generator bounds the explored type universe.",
         design_ref="5 (C02)"),
     "C03": dict(
-        technique="TLA+ meaning of a text (JsonValue.tla) compared by TLC with the projected Go tree for 10 decoding routes; acceptance iff valid, fitting and no overflow",
+        technique="TLA+ meaning of a text (JsonValue.tla) compared by TLC with the projected Go tree for 10 decoding routes; acceptance iff valid, fitting and no overflow; Arshal.tla model of untyped destinations replayed exhaustively over a bounded universe under the options that switch the specialised decoder off",
         text=("For each logged (text, route) TLC recomputes validity with the automaton and the value tree with JsonValue.tla, and requires the untyped target to hold exactly that tree (strings "
               "by code points, arrays in order, objects as member sets, numbers as the nearest float64) and an error exactly for invalid texts, kind mismatches of map/slice targets and float64 "
               "overflow - through Unmarshal, UnmarshalRead, UnmarshalDecode over chunked streams, the generic map[string]any / []any machinery, a named interface, and option sets that disable the "
-              "specialised untyped decoder."),
+              "specialised untyped decoder. The Arshal model adds every (pre-existing value, input) of a bounded universe for any, []any, map[string]any, *any, [1]any and struct{any} under default, AllowDuplicateNames, StringifyNumbers, both, and RejectUnknownMembers+MatchCaseInsensitiveNames, with the predicted tree and nil-ness."),
         note="Number rounding is supplied by the strconv projection (decided in C10); sampled texts incl. interning-cache adversaries and 16..19-digit integers.",
         design_ref="5 (C03)"),
     "C04": dict(
-        technique="TLC trace validation of Marshal/Unmarshal/Marshal chains: validity, equality of value trees (JsonValue.tla), fixed point, projected Go equality",
+        technique="TLC trace validation of Marshal/Unmarshal/Marshal chains: validity, equality of value trees (JsonValue.tla), fixed point, projected Go equality; TLA+ model of the type-directed mapping (Arshal.tla) with the round-trip theorem model-checked by TLC and every (type, value, options) replayed with exact predicted bytes",
         text=("Random values of random types x 10 symmetric option sets are marshaled, unmarshaled into a zero value, marshaled again (and once more); TLC requires out1 valid, accepted by "
               "Unmarshal, out2 denoting the same tree as out1 (identical bytes under Deterministic) unless omit options are present, out3 = out2 always, and - where Go equality is meaningful - "
-              "the decoded value equal to the original with nil/empty identified, floats by bit pattern and integers exactly."),
+              "the decoded value equal to the original with nil/empty identified, floats by bit pattern and integers exactly. In addition the type-directed model spec/Arshal.tla (documented mapping between Go values and JSON for bool, string, float64, integers, slices, arrays, maps keyed by strings or integers, pointers, any and structs with omitzero/omitempty/string/case options) is enumerated by TLC over a bounded universe of types, values, inputs and option sets (MC_Arshal) and every case is replayed on reflect-built types with the exact predicted bytes / Go value. On the model TLC proves RoundTrip (Unmarshal accepts Marshal(v), the second output is the same JSON value - a fixed point after one round with omit options - and the decoded value equals v up to nil/empty and values written as null) and ParseRender (the rendering reads back through the byte automaton)."),
         note="Relational check between real executions with TLC deciding validity/meaning equality; Go-side equality is a projection fact. No exhaustive float32 sweep.",
         design_ref="5 (C04)"),
     "C05": dict(
@@ -53,18 +53,18 @@ CHECKS = {
         note="Bounded-exhaustive programs/schedules plus sampled long runs; PeekKind at the point where input ends or dies is left open; UnmarshalRead/UnmarshalDecode equivalence is decided in C03's check.",
         design_ref="5 (C05), 4.2"),
     "C14": dict(
-        technique="TLA+ MergeTree on value trees; TLC validates that the driver's merged text is MergeTree(j1..jk) and the law chain == single unmarshal of the merged text",
+        technique="TLA+ MergeTree on value trees; TLC validates that the driver's merged text is MergeTree(j1..jk) and the law chain == single unmarshal of the merged text; TLA+ model of Unmarshal's merge semantics per Go type (Arshal.tla): MergeLaw and FrameLaw model-checked by TLC, every (type, pre-existing value, input, options) replayed with the predicted Go value",
         text=("For random merge-capable types and chains of 2..4 fitting texts (nulls, missing and unknown members), the harness unmarshals the chain into one value and the JSON-level merge into "
               "a zero value. TLC recomputes the merge from the meanings of the logged texts (objects united recursively, otherwise the later side) - a mismatch with the driver's text is a machinery "
-              "error - and requires that whenever the chain succeeds the merged text is accepted and yields an equal Go value."),
+              "error - and requires that whenever the chain succeeds the merged text is accepted and yields an equal Go value. In addition the type-directed model spec/Arshal.tla (documented mapping between Go values and JSON for bool, string, float64, integers, slices, arrays, maps keyed by strings or integers, pointers, any and structs with omitzero/omitempty/string/case options) is enumerated by TLC over a bounded universe of types, values, inputs and option sets (MC_Arshal) and every case is replayed on reflect-built types with the exact predicted bytes / Go value. On the model TLC proves for all pairs of inputs: j2 into (j1 into zero), whenever both succeed, equals merge(j1, j2) into zero (MergeLaw), and fields / entries not mentioned are kept (FrameLaw); the replay covers every pre-existing value (nil, empty, populated; allocated pointers; held interface values), not only those reachable by a first unmarshal."),
         note="Sampled; Go value equality is a projection fact; raw values and []byte are outside the merge-capable universe.",
         design_ref="5 (C14)"),
     "C15": dict(
-        technique="TLA+ declarative field-resolution rules checked by TLC against a transcription of the implementation's sort-and-scan algorithm on every type graph; replay on reflect-built struct types (member names/order/presence, receiving field per probe name)",
+        technique="TLA+ declarative field-resolution rules checked by TLC against a transcription of the implementation's sort-and-scan algorithm on every type graph; replay on reflect-built struct types (member names/order/presence, receiving field per probe name); Arshal.tla carries the per-field options over all modelled field types: exact Marshal bytes and Unmarshal field contents replayed over a bounded universe",
         text=("Fields.tla states the documented rules (breadth-first candidates, shallowest wins, a single explicitly named field breaks a tie, otherwise dropped; depth-first marshal order; exact then "
               "case-insensitive matching ignoring '_' and '-' with ambiguity reported; unknown names ignored or rejected; omitzero/omitempty/string per field). TLC proves rules == algorithm and "
               "name uniqueness on each type graph and emits, per type, the member order with omission flags per value class and the field (or unknown/ambiguous) for 17 probe names under both "
-              "matching modes. The harness builds each type with reflect and compares Marshal output for 8 value classes and the field set by Unmarshal for every probe x option combination."),
+              "matching modes. The harness builds each type with reflect and compares Marshal output for 8 value classes and the field set by Unmarshal for every probe x option combination. The Arshal model extends the per-field options to every modelled field type (pointers, containers, interfaces, nested structs): omitzero by the Go zero value, omitempty by the encoded value, `string` on numbers only (an error elsewhere), matching per field - exact bytes and field contents for every value / input of a bounded universe."),
         note="Sampled type graphs from a collision-forcing grammar plus hand-written corners and 70/130-field structs; ASCII names; `embed` tag option instead of Go embedding.",
         design_ref="5 (C15), 4.6"),
     "C16": dict(
@@ -111,11 +111,11 @@ CHECKS = {
         note="ECMA-262 layout, -0, ordering and string minimality are the spec's; the nearest float64 and its shortest digits for literals with > 15 significant digits come from the strconv projection (trusted).",
         design_ref="5 (C13), 4.4"),
     "C08": dict(
-        technique="TLC decides from the byte automaton (4 option combinations) whether a logged text is ambiguous and validates the outcome of Unmarshal under each combination for random target types",
+        technique="TLC decides from the byte automaton (4 option combinations) whether a logged text is ambiguous and validates the outcome of Unmarshal under each combination for random target types; Arshal.tla model of duplicate detection by field / decoded key / name replayed over a bounded universe x {default, AllowDuplicateNames, case-insensitive, both}",
         text=("Texts fitting random target types (struct, map, untyped, raw value, skipped unknown members, nested mixes) get one member repeated at a random depth - with the same or an escaped "
               "spelling - or one string damaged by ill-formed UTF-8. TLC classifies each text with the automaton and requires: rejected under defaults by every target; AllowDuplicateNames admits "
               "only duplicates and AllowInvalidUTF8 only ill-formed bytes; on unambiguous input the options change neither success nor the decoded value. Marshal-side clauses are decided by C02's "
-              "driver (colliding keys, invalid strings) and field-level collisions by C15."),
+              "driver (colliding keys, invalid strings) and field-level collisions by C15. The Arshal model adds where the library itself decides duplicates: two members reaching one struct field (also by case-insensitive matching), two names decoding to one map key (\"0\" and \"-0\"), repeated unknown members, pre-populated maps; under AllowDuplicateNames the later member is decoded into what the earlier one left - every case of a bounded universe replayed with predicted outcome and value."),
         note="Sampled; later-wins/merge values under AllowDuplicateNames are checked for success and option-independence, not against a predicted value.",
         design_ref="5 (C08)"),
     "C09": dict(
